@@ -34,29 +34,31 @@ Step == l' = l + 1 /\ sl' = 0 /\ UNCHANGED tid
 
 Cfg0(t) == Traces[t][1]
 TInit == /\ tid \in 1..Len(Traces) /\ l = 2 /\ sl = 0
-         /\ InitWith([tl |-> Cfg0(tid).tl, ml |-> Cfg0(tid).ml,
-                      maxr |-> [m \in Msgs |-> IF m <= Len(Cfg0(tid).maxr) THEN Cfg0(tid).maxr[m] ELSE 0]], Msgs)
+         /\ InitWith([tl |-> Cfg0(tid).tl, ml |-> Cfg0(tid).ml, nq |-> Cfg0(tid).nq,
+                      maxr |-> [m \in Msgs |-> IF m <= Len(Cfg0(tid).maxr) THEN Cfg0(tid).maxr[m] ELSE 0],
+                      qof |-> [m \in Msgs |-> IF m <= Len(Cfg0(tid).qof) THEN Cfg0(tid).qof[m] ELSE 1]], Msgs)
          /\ TLCSet(tid, 2)
 
+QOf(m) == wc.qof[m]
 TArrive == Is("arrive") /\ Arrive(Ev.i) /\ Step
 TTake == Is("take") /\ CL_TakeM(Ev.i) /\ Step
-TGot == Is("got") /\ hand = Ev.i /\ CL_Resume /\ Step
+TGot == Is("got") /\ hand[QOf(Ev.i)] = Ev.i /\ CL_Resume(QOf(Ev.i)) /\ Step
 TXs == Is("xs") /\ T_Start(Ev.i) /\ Step
 TXe == Is("xe") /\ out[Ev.i] = Ev.out /\ T_End(Ev.i) /\ Step
 TReport == /\ Is("report") /\ T_Report(Ev.i) /\ Step
            /\ CASE Ev.op = "ack" -> Ev.i \in acked'
                 [] Ev.op = "nack" -> Ev.i \in dead'
-                [] Ev.op = "requeue" -> \E k \in 1..Len(q') : q'[k] = Ev.i
+                [] Ev.op = "requeue" -> InSeq(q'[QOf(Ev.i)], Ev.i)
 TGiveback == /\ Is("giveback") /\ Step
-             /\ \/ clm = Ev.i /\ CL_Cancel
-                \/ clm = Ev.i /\ CL_OverBudget
+             /\ \/ clm[QOf(Ev.i)] = Ev.i /\ CL_Cancel(QOf(Ev.i))
+                \/ clm[QOf(Ev.i)] = Ev.i /\ CL_OverBudget(QOf(Ev.i))
                 \/ Ev.i \in proc /\ T_Cancel(Ev.i)
 TStop == Is("stop") /\ Step /\ (StopRequest \/ (stop /\ UNCHANGED vars))
-TFin == Is("fin") /\ proc = ToSet(Ev.ids) /\ ConsFinish /\ Step
-TRet == Is("ret") /\ phase = "ret" /\ UNCHANGED vars /\ Step
+TFin == Is("fin") /\ OfQueue(proc, Ev.q) = ToSet(Ev.ids) /\ ConsFinish(Ev.q) /\ Step
+TRet == Is("ret") /\ Step /\ (Return \/ (phase = "ret" /\ UNCHANGED vars))
 Silent == /\ sl < MaxSilent /\ l <= Len(Traces[tid])
-          /\ \/ CL_Wait \/ CL_Spawn \/ FG
-             \/ clm = None /\ CL_Cancel
+          /\ \/ FG
+             \/ \E k \in Qs : CL_Wait(k) \/ CL_Spawn(k) \/ (clm[k] = None /\ CL_Cancel(k))
              \/ \E m \in Msgs : T_Callback(m) \/ (m \notin proc /\ T_Cancel(m))
           /\ sl' = sl + 1 /\ UNCHANGED <<tid, l>>
 
@@ -64,7 +66,7 @@ TNext == TArrive \/ TTake \/ TGot \/ TXs \/ TXe \/ TReport \/ TGiveback \/ TStop
 TSpec == TInit /\ [][TNext]_<<vars, tvars>>
 
 (* a state in which an invariant of Runner fails is not a state of the specification: the trace stops being explained there *)
-Sound == Conservation /\ SlotsSound /\ RunningBound /\ StartedBound /\ AtReturn /\ TriedBound
+Sound == Conservation /\ SlotsSound /\ RunningBound /\ StartedBound /\ AtReturn /\ TriedBound /\ OwnQueue
 Progress == Sound /\ TLCSet(tid, IF TLCGet(tid) < l THEN l ELSE TLCGet(tid))
 Reach == TLCSet(tid, IF TLCGet(tid) < l THEN l ELSE TLCGet(tid))
 ProgressOnly == Reach                                             \* actions only: is the run a behaviour of Runner at all?
